@@ -1,8 +1,8 @@
 SPECIFICATION Spec
 CONSTANTS Cfg <- TheCfg
  Wedge = FALSE
- MakeOnPending = "cancel"
+ MakeOnPending = "keep"
  FireDropsBs = FALSE
-INVARIANT Done
-POSTCONDITION Accepted
+INVARIANT Mark
+POSTCONDITION Post
 CHECK_DEADLOCK FALSE
